@@ -178,6 +178,15 @@ class Prog(nn.Module):
         if k == "uattn":
             import unit_scaling.functional as U
             return U.scaled_dot_product_attention(x, x, x, mult=2.0, is_causal=True)
+        if k == "fan":  # fan-out: one tensor used by several consumers
+            a = torch.tanh(x)
+            return a * x + a
+        if k == "mask":  # bool intermediate
+            m = x > 0
+            return torch.where(m, x, x * 0.5)
+        if k == "idx":  # integer intermediate
+            i = torch.argmax(x, dim=-1, keepdim=True)
+            return x + torch.gather(x, -1, i)
         if k == "reshape":
             return x.unsqueeze(1).transpose(1, 2).squeeze(2)  # view-type reshaping without sizes baked into the graph
         if k == "nconv":
@@ -228,6 +237,8 @@ class Prog(nn.Module):
             x = self.emb(x)
         for item in self.plan:
             x = self._apply(item, x, extra)
+        if self.head == "multi":
+            return x, torch.relu(x).sum()
         if self.head == "mse":
             return F.mse_loss(x, extra["target"])
         if self.head == "ce":
@@ -344,6 +355,34 @@ def qprograms(tier: str) -> List[Any]:
         for a, f, b in itertools.product(QOPS, QFILL, QOPS):
             if (QOPS.index(a) + QFILL.index(f) + QOPS.index(b)) % 2 == 0:
                 specs.append((((a, ()), (f, ()), (b, ())), None, False))
+    out, seen = [], set()
+    for sp in specs:
+        if sp not in seen:
+            seen.add(sp)
+            out.append(sp)
+    return out
+
+
+def tprograms(tier: str) -> List[Any]:
+    """family for the scale-tracking / pruning checks: C16-style programs + fan-out, bool/int intermediates, views,
+    negations, multiple outputs, parameters"""
+    th = tier == "thorough"
+    base = ["lin", "flin", "gelu", "ln", "sm", "attn", "tanh", "mul", "neg", "reshape", "fan", "mask", "idx", "add_in", "add_sc", "iadd_in", "drop", "nconv"]
+    specs: List[Any] = []
+    for a in base:
+        for head in (None, "mse", "multi"):
+            specs.append((((a, ()),), head, False))
+    for a, b in itertools.product(base, repeat=2):
+        if th or (base.index(a) * 7 + base.index(b)) % 4 == 0:
+            specs.append((((a, ()), (b, ())), None if (base.index(a) + base.index(b)) % 2 else "mse", False))
+    for br in BRANCHES[:5]:
+        specs.append(((("res", br),), None, False))
+        specs.append(((("lin", ()), ("res", br), ("reshape", ())), "mse", False))
+    specs.append(((("lin", ()), ("gelu", ())), "ce", True))
+    if th:
+        for a, b, c in itertools.product(base[:10], base[8:], base[:6]):
+            if (base.index(a) + base.index(b) + base.index(c)) % 3 == 0:
+                specs.append((((a, ()), (b, ()), (c, ())), "mse", False))
     out, seen = [], set()
     for sp in specs:
         if sp not in seen:
